@@ -39,6 +39,9 @@ class Synth(object):
         self.attr = {}     # (kl, attr) -> Attr_ID
         self.pkg = {}      # component name ('' = root) -> Package_ID
         self.comp = {}     # component name -> C_C.Id
+        self.nested = {}   # component name -> Package_ID of a package nested in its package
+        import random as _random
+        self.prnd = _random.Random(seed * 31 + 5)
         self.build()
 
     def id(self):
@@ -49,8 +52,21 @@ class Synth(object):
         self.rows.append((table, v))
 
     def pe(self, element_id, comp, kind=0):
-        """the packageable-element row placing an element in the package of its component"""
-        self.row('PE_PE', Element_ID=element_id, Visibility=1, Package_ID=self.pkg[comp], Component_ID=0, type=kind)
+        """the packageable-element row placing an element in its component: in the package of the component, in a package
+        nested in that package, or (classes and data types) directly in the component.  Where an element sits inside its
+        component is a choice of the synthesis, like the order of the rows"""
+        place = self.prnd.random() if comp and kind in (3, 4) else 0.0
+        if place < 0.6:
+            self.row('PE_PE', Element_ID=element_id, Visibility=1, Package_ID=self.pkg[comp], Component_ID=0, type=kind)
+        elif place < 0.8:
+            self.row('PE_PE', Element_ID=element_id, Visibility=1, Package_ID=0, Component_ID=self.comp[comp], type=kind)
+        else:
+            if comp not in self.nested:
+                pid = self.id()
+                self.nested[comp] = pid
+                self.row('EP_PKG', Package_ID=pid, Sys_ID=0, Direct_Sys_ID=0, Name=comp + '_inner', Descrip='', Num_Rng=0)
+                self.row('PE_PE', Element_ID=pid, Visibility=1, Package_ID=self.pkg[comp], Component_ID=0, type=7)
+            self.row('PE_PE', Element_ID=element_id, Visibility=1, Package_ID=self.nested[comp], Component_ID=0, type=kind)
 
     def type_id(self, name):
         return self.dt[name]
